@@ -272,7 +272,9 @@ TaskTimer(t) ==
                                              [] tasks[t].pc = "sleep" -> "timer"
                                              [] OTHER -> "tmo30",
                               ![t].host = h,
-                              ![t].k = IF Timed /\ LooseBackoff /\ tasks[t].pc = "sleep" /\ ~tasks[t].tmo THEN now - SleepStart(tasks[t]) ELSE @]
+                              ![t].k = IF Timed /\ LooseBackoff /\ tasks[t].pc = "sleep" /\ ~tasks[t].tmo THEN now - SleepStart(tasks[t]) ELSE @,
+                              \* (loose reading) a time-out is silent: what follows it began at an unknown earlier instant
+                              ![t].tmo = IF Timed /\ LooseBackoff /\ tasks[t].pc # "sleep" THEN TRUE ELSE @]
     /\ UNCHANGED <<now, socks, cur, closing, closedF, secureF, shutdownF, lock, ref, hosts, descr, failed,
                    nxUsed, callers, attempts, userClosed, subsOk, authEnded>>
 
